@@ -86,6 +86,9 @@ def table(repo, canon, callee, call, caller_frame, residual_param='residual_data
                     cmp = flags[t.id][:3]
                     if flags[t.id][3]:
                         pol = not pol
+                elif isinstance(t, ast.Name) and (t.id in env or t.id == residual_param):
+                    # truthiness of a number: `if not residual:` is `residual == 0`
+                    cmp = (affine(canon, t, sub, env), Affine(), ast.NotEq)
                 if cmp is not None:
                     l, rr, op = cmp
                     d = l - rr
@@ -104,7 +107,11 @@ def table(repo, canon, callee, call, caller_frame, residual_param='residual_data
                         continue
                     if rr.is_const() and rr.const == 0 and op in (ast.Lt, ast.Gt, ast.LtE, ast.GtE) and l != D0:
                         pos = {ast.Gt: True, ast.GtE: True, ast.Lt: False, ast.LtE: False}[op]
-                        r.sign = '+' if pos == pol else '-'
+                        sign = '+' if pos == pol else '-'
+                        if r.sign is not None and r.rate == l and r.sign != sign:
+                            feasible = False     # the sign of the rate was decided the other way earlier on this path
+                            break
+                        r.sign = sign
                         r.rate = l
                         continue
                     if D0 is not None and op in (ast.Lt, ast.GtE, ast.LtE, ast.Gt) and (l == D0 or rr == D0):
